@@ -131,6 +131,7 @@ package ztest
 //@   requires 0 <= alo && alo <= ahi && ahi <= len(sm.a) && 0 <= blo && blo <= bhi && bhi <= len(sm.b)
 //@   requires len(sm.a) <= 576460752303423488 && len(sm.b) <= 576460752303423488
 //@   ensures alo <= r.A && r.A + r.Size <= ahi && blo <= r.B && r.B + r.Size <= bhi && r.Size >= 0      [C20] "the block found lies inside the two windows"
+//@   ensures r.Size == 0 ==> r.A == alo && r.B == blo                                                   [C20] "when nothing matches the empty block sits at the start of both windows"
 //@   ensures sm.a == old(sm.a) && sm.b == old(sm.b)
 //@   loop 1 "for i, s := range m.b"
 //@     invariant sm.a == old(sm.a) && sm.b == old(sm.b)
@@ -140,16 +141,20 @@ package ztest
 //@     invariant alo <= i && i <= ahi
 //@     invariant allocated(ref(j2len))
 //@     invariant alo <= besti && besti + bestsize <= i && blo <= bestj && bestj + bestsize <= bhi && bestsize >= 0
+//@     invariant bestsize == 0 ==> besti == alo && bestj == blo
 //@     invariant forall(j, int, has(j2len, j) ==> j2len[j] >= 1 && j2len[j] <= i - alo && j - j2len[j] + 1 >= blo && j < bhi)
 //@   loop 3 "for _, j := range b2j[m.a[i]]"
 //@     invariant sm.a == old(sm.a) && sm.b == old(sm.b)
 //@     invariant alo <= besti && besti + bestsize <= i + 1 && blo <= bestj && bestj + bestsize <= bhi && bestsize >= 0
+//@     invariant bestsize == 0 ==> besti == alo && bestj == blo
 //@     invariant ref(j2len) != ref(newj2len)
 //@     invariant forall(j, int, has(j2len, j) ==> j2len[j] >= 1 && j2len[j] <= i - alo && j - j2len[j] + 1 >= blo && j < bhi)
 //@     invariant forall(j, int, has(newj2len, j) ==> newj2len[j] >= 1 && newj2len[j] <= i + 1 - alo && j - newj2len[j] + 1 >= blo && j < bhi)
 //@   loop 4 "for besti > alo && bestj > blo && m.cmp(m.a[besti-1], m.b[bestj-1])"
 //@     invariant sm.a == old(sm.a) && sm.b == old(sm.b)
 //@     invariant alo <= besti && besti + bestsize <= ahi && blo <= bestj && bestj + bestsize <= bhi && bestsize >= 0
+//@     invariant bestsize == 0 ==> besti == alo && bestj == blo
 //@   loop 5 "for besti+bestsize < ahi && bestj+bestsize < bhi && m.cmp(m.a[besti+bestsize], m.b[bestj+bestsize])"
 //@     invariant sm.a == old(sm.a) && sm.b == old(sm.b)
 //@     invariant alo <= besti && besti + bestsize <= ahi && blo <= bestj && bestj + bestsize <= bhi && bestsize >= 0
+//@     invariant bestsize == 0 ==> besti == alo && bestj == blo
